@@ -12,6 +12,10 @@ import Csvq.Lemmas.Dml
 import Csvq.Model.Skeleton
 import Csvq.Gen.DmlFacts
 import Csvq.Ref.DmlFacts
+import Csvq.Model.CopyDepth
+import Csvq.Gen.CopyFacts
+import Csvq.Model.CopySites
+import Csvq.Ref.CopyFacts
 namespace Csvq.C08
 open Csvq Csvq.Dml
 
@@ -597,6 +601,132 @@ theorem gen_writes_go_to_copies :
     Csvq.Skeleton.writes Csvq.Gen.fxDropColumns = [] ∧ Csvq.Skeleton.writes Csvq.Gen.fxSetTableAttribute = [] ∧
     (["get_copy", "}", "else{", "get_copy", "if(err){", "return", "}", "}", "header_update(viewsToUpdate[viewKey])"] <:+: Csvq.Gen.fxUpdate) ∧
     (["get_copy", "}", "else{", "get_copy", "if(err){", "return", "}", "}", "header_update(viewsToDelete[viewKey])"] <:+: Csvq.Gen.fxDelete) := by decide
+
+/-! ## HOW DEEP the copies are (extract/copyfacts → Gen/CopyFacts, REGENERATED on every run; Model/CopyDepth)
+
+  `gen_writes_go_to_copies` says that the functions write into views obtained from `ViewMap.Get` (`get_copy`) or from the
+  load.  That only helps if such a view shares with the cached table nothing that is written.  The copy facts state, for
+  every copy function, how every level of its result is obtained; `CopyDepth.problems` follows them from the accessor
+  down to a level and lists the facts that make the level shared.  Seeds of this class: C08-m15 (RecordSet.Copy took the
+  tail of a large table over with the builtin copy()), C05-m1 / C08-m1 (a write INTO a cell), C20-m17 (ViewMap.Get handed
+  out the cached view itself for tables without records); genuine defect F106 (Header.Copy shared the alias lists). -/
+
+section CopyDepth
+open Csvq.CopyDepth Csvq.CopySites
+set_option maxRecDepth 100000
+
+/-- EVERY LEVEL WRITTEN IS FRESH IN THE COPY: every level that an effect of the regenerated DML skeletons writes
+    (write_cell → the record's array of cells, write_header → the header's array, set_records / set_header /
+    set_select_fields / set_fileinfo → the View struct), and every level written by an assignment found by type in those
+    functions and in the View / Header / RecordSet / Record methods they call (View.insert, View.replace, View.Fix,
+    View.filter, Header.Update, …), is the copy's own in the regenerated copy facts of `ViewMap.Get` — except the FileInfo,
+    which is shared by design -/
+theorem copies_independent_at_written_levels :
+    (∀ l ∈ writtenLevels allDmlEffects, l = Level.fileInfo ∨ levelFresh Csvq.Gen.copyFacts accessor l = true) ∧
+    (∀ o ∈ typedWrittenLevels Csvq.Gen.dmlWrites, ∃ l, o = some l ∧ (l = Level.fileInfo ∨ levelFresh Csvq.Gen.copyFacts accessor l = true)) ∧
+    sharedWrittenSites Csvq.Gen.copyFacts allDmlEffects Csvq.Gen.dmlWrites = [] := by
+  refine ⟨by decide, ?_, by decide⟩
+  intro o ho
+  have h : (typedWrittenLevels Csvq.Gen.dmlWrites).all (fun o => match o with
+      | some l => decide (l = Level.fileInfo) || levelFresh Csvq.Gen.copyFacts accessor l
+      | none => false) = true := by decide
+  have := List.all_eq_true.mp h o ho
+  cases o with
+  | none => simp at this
+  | some l =>
+    refine ⟨l, rfl, ?_⟩
+    simp only [Bool.or_eq_true, decide_eq_true_eq] at this
+    exact this
+
+/-- THE REVIEWED DEPTH of the working copy a statement gets from `ViewMap.Get`: its own down to the arrays of cells —
+    the View struct, the header's array, the alias lists, the array of records, every record's array of cells —; SHARED BY
+    DESIGN with the cached table: the arrays behind the cells (a Cell is a slice header that Record.Copy takes over:
+    a cell is replaced, never written into), the value objects (immutable: lib/value hands out new objects, C14), and the
+    FileInfo (attributes, handler, restore point: one per table and transaction) -/
+theorem gen_copy_depth_reviewed :
+    depthProblems Csvq.Gen.copyFacts = [] ∧
+    allLevels.map (fun l => (l, levelFresh Csvq.Gen.copyFacts accessor l)) =
+      [(.viewStruct, true), (.headerArray, true), (.aliasArray, true), (.recordSetArray, true), (.recordArray, true),
+       (.cellArray, false), (.valueObject, false), (.fileInfo, false)] ∧
+    -- the three shared levels are shared at exactly one place each
+    levelProblems Csvq.Ref.copyFacts accessor .cellArray =
+      ["Record.Copy at record.go: level [*] is the SAME value as r[i] of the original [loop 0..len(r)]"] ∧
+    levelProblems Csvq.Ref.copyFacts accessor .fileInfo =
+      ["View.Copy at view.go: level .FileInfo is the SAME value as view.FileInfo of the original"] := by decide
+
+/-- the other accessors hand out copies of the same depth where it matters: the temporary-table accessors go through
+    ViewMap.Get / GetWithInternalId, and GetWithInternalId (UPDATE / DELETE load their joined view with it) returns a
+    View.Copy whose records were replaced by new arrays (id cell + the old cells).  (Its alias lists are not ESTABLISHED
+    as its own: Header.Merge takes the elements of the copy's header over — one step more than the facts follow; no
+    data-changing function writes them.) -/
+theorem gen_accessors_hand_out_copies :
+    [Level.viewStruct, .headerArray, .recordSetArray, .recordArray].all (fun l =>
+      levelFresh Csvq.Gen.copyFacts "ViewMap.GetWithInternalId" l &&
+      levelFresh Csvq.Gen.copyFacts "ReferenceScope.GetTemporaryTable" l &&
+      levelFresh Csvq.Gen.copyFacts "ReferenceScope.GetTemporaryTableWithInternalId" l) = true ∧
+    levelFresh Csvq.Gen.copyFacts "ReferenceScope.GetTemporaryTable" .aliasArray = true := by decide
+
+/-- the regenerated copy facts are the reviewed ones (line numbers aside): any edit of a Copy / Clone / copy… function, of
+    ViewMap.Get / GetWithInternalId, NewCell, NewReferenceRecord, of a FileInfo struct copy, or a NEW function of that kind,
+    and any new write into a part of a view by the data-changing functions, is an undischarged obligation until reviewed -/
+theorem gen_copy_facts_eq_ref :
+    Csvq.Gen.copyFacts.map (fun f => { f with site := f.file }) = Csvq.Ref.copyFacts ∧
+    Csvq.Gen.copyFunctions = Csvq.Ref.copyFunctions ∧
+    Csvq.Gen.dmlWrites.map (fun w => { w with site := w.file }) = Csvq.Ref.dmlWrites := by decide
+
+/-! ### not vacuous: the shapes of the known defects of this class are rejected, with the site named -/
+
+/-- C08-m15: RecordSet.Copy copies full blocks in goroutines and takes the records behind the last full block over with the
+    builtin copy() — those records are the cached table's own arrays of cells -/
+def m15RecordSetCopy : List Fact :=
+  [⟨"RecordSet.Copy", "record.go", "record.go:22",1, "blocks<2", [], .fresh "make(RecordSet,len(r))", "", false, "", ""⟩,
+   ⟨"RecordSet.Copy", "record.go", "record.go:27",1, "blocks<2", ["[*]"], .call "Record.Copy", "loop", true, "0..len(r)", ""⟩,
+   ⟨"RecordSet.Copy", "record.go", "record.go:22",2, "", [], .fresh "make(RecordSet,len(r))", "", false, "", ""⟩,
+   ⟨"RecordSet.Copy", "record.go", "record.go:38",2, "", ["[*]"], .call "Record.Copy", "goroutine_loop", false, "start..end", ""⟩,
+   ⟨"RecordSet.Copy", "record.go", "record.go:44",2, "", ["[*]"], .same "r[*]", "builtin_copy", false,
+     "records[blocks*MinimumRequiredPerCPUCore:]<-r[blocks*MinimumRequiredPerCPUCore:]", ""⟩]
+
+theorem rejects_tail_taken_over_by_builtin_copy :
+    levelFresh (withFn Csvq.Ref.copyFacts "RecordSet.Copy" m15RecordSetCopy) accessor .recordArray = false ∧
+    levelProblems (withFn Csvq.Ref.copyFacts "RecordSet.Copy" m15RecordSetCopy) accessor .recordArray =
+      ["RecordSet.Copy: no statement fills level [*] over the whole length (record.go:38 goroutine_loop start..end; record.go:44 builtin_copy records[blocks*MinimumRequiredPerCPUCore:]<-r[blocks*MinimumRequiredPerCPUCore:])",
+       "RecordSet.Copy at record.go:44: level [*] is the SAME value as r[*] of the original [builtin_copy records[blocks*MinimumRequiredPerCPUCore:]<-r[blocks*MinimumRequiredPerCPUCore:]]"] ∧
+    (sharedWrittenSites (withFn Csvq.Ref.copyFacts "RecordSet.Copy" m15RecordSetCopy) ["write_cell(viewsToUpdate[viewref])"] []).isEmpty = false ∧
+    (sharedWrittenSites (withFn Csvq.Ref.copyFacts "RecordSet.Copy" m15RecordSetCopy) [] Csvq.Ref.dmlWrites).isEmpty = false ∧
+    -- a loop that stops early is rejected as well, although nothing is shared: the copy is not complete
+    levelFresh (withFn Csvq.Ref.copyFacts "RecordSet.Copy"
+      [⟨"RecordSet.Copy", "x", "x",1, "", [], .fresh "make", "", false, "", ""⟩,
+       ⟨"RecordSet.Copy", "x", "x",1, "", ["[*]"], .call "Record.Copy", "loop", false, "0..len(r)-1", ""⟩]) accessor .recordArray = false := by decide
+
+/-- F106 (fixed in 8074f73): Header.Copy copied the HeaderField structs and with them the slice headers of their alias lists -/
+theorem rejects_shared_alias_lists :
+    levelProblems (withFn Csvq.Ref.copyFacts "Header.Copy"
+      [⟨"Header.Copy", "header.go", "header.go:303",1, "", [], .fresh "make(Header,h.Len())", "", false, "", ""⟩,
+       ⟨"Header.Copy", "header.go", "header.go:305",1, "", ["[*]"], .same "h[i]", "loop", true, "0..len(h)", ""⟩]) accessor .aliasArray =
+      ["Header.Copy at header.go:305: level [*] is the SAME value as h[i] of the original [loop 0..len(h)]"] ∧
+    (depthProblems (withFn Csvq.Ref.copyFacts "Header.Copy"
+      [⟨"Header.Copy", "header.go", "header.go:303", 1, "", [], .fresh "make(Header,h.Len())", "", false, "", ""⟩,
+       ⟨"Header.Copy", "header.go", "header.go:305", 1, "", ["[*]"], .same "h[i]", "loop", true, "0..len(h)", ""⟩])).isEmpty = false ∧
+    levelFresh (withFn Csvq.Ref.copyFacts "Header.Copy"
+      [⟨"Header.Copy", "header.go", "header.go:303",1, "", [], .fresh "make(Header,h.Len())", "", false, "", ""⟩,
+       ⟨"Header.Copy", "header.go", "header.go:305",1, "", ["[*]"], .same "h[i]", "loop", true, "0..len(h)", ""⟩]) accessor .headerArray = true := by decide
+
+/-- C20-m17: ViewMap.Get returns the cached view itself when the table has no records: every level is the cached table's -/
+theorem rejects_accessor_returning_the_cached_view :
+    allLevels.map (fun l => levelFresh (withFn Csvq.Ref.copyFacts "ViewMap.Get"
+      [⟨"ViewMap.Get", "view_map.go", "view_map.go:54",1, "ok&&view.RecordLen()<1", [], .same "m.Load(identifier)", "", false, "", ""⟩,
+       ⟨"ViewMap.Get", "view_map.go", "view_map.go:59",2, "ok", [], .call "View.Copy", "", false, "", ""⟩,
+       ⟨"ViewMap.Get", "view_map.go", "view_map.go:61",3, "", [], .nil, "", false, "", ""⟩]) accessor l) =
+      [false, false, false, false, false, false, false, false] := by decide
+
+/-- C05-m1 / C08-m1: a write INTO a cell needs the cell's own array of values, which no copy has -/
+theorem rejects_write_into_cell :
+    (sharedWrittenSites Csvq.Ref.copyFacts ["write_into_shared_cell(viewsToUpdate[viewref])"] []).isEmpty = false ∧
+    (sharedWrittenSites Csvq.Ref.copyFacts [] [⟨"Update", "query.go", "query.go:521", "v.RecordSet[i][j][0]", "cellArray"⟩]).isEmpty = false ∧
+    -- and the reviewed facts themselves pass: the witnesses differ from them in the named function only
+    sharedWrittenSites Csvq.Ref.copyFacts ["write_cell(v)", "set_records(v)", "write_header(v)"] Csvq.Ref.dmlWrites = [] := by decide
+
+end CopyDepth
 
 /-- LOADING after a cache hit: `loadObjectFromFile` hands out copies and registers the alias; it never disposes a cached
     view, closes a handler or defers anything — so a statement that fails during loading (duplicate table name in FROM,
